@@ -193,7 +193,7 @@ META = {
         rule=("(a) Trees of 1-6 tracks (nested, persist_until_sounds_finish on/off) with 0-2 looping or finite DC sounds per track; histories of instant pause/resume and resume_at(delayed 2-9 chunks) on any node, handle drops of any node, sound stops, callbacks of 1-3 chunks. After every callback: the set of audible sounds (decoded from the summed DC level) equals the model "
               "(a paused track silences its whole subtree exactly; a dropped track is silent at the next callback unless it persists until its sounds have finished and been unloaded, or a descendant track is still alive); positions of sounds under a steadily paused track are constant and advance by exactly the callback's frames otherwise (continue exactly where they froze); "
               "num_sub_tracks of the manager and of every live handle equal the model; state() equals Playing/Paused. Fades requested while an ancestor is paused are deferred (they do not advance in a frozen subtree). "
-              "(b) a sound with a start delay on a (nested) track paused for P chunks with a fade becomes audible P chunks later (+- the fade and one chunk). (c) random pause/resume/resume_at(delayed | clock | clock later dropped) histories with fades: state() never panics and is one of the five states. A case is distinct per (kind, index). Also pause on a track that is waiting to resume (the scheduled resume is cancelled) and pauses whose fade has a delayed start (the track plays on until then). 40 % of the delay / fade cases run on a device whose internal buffer is three callbacks long (short chunks): track fades and start delays are counted in rendered frames. Resume variants on plain and spatial tracks: resume() with a fade-in whose start is delayed (Resuming at once, sounds advance), and resume_at on a clock that is not running (frozen and silent until it is started)."),
+              "(b) a sound with a start delay on a (nested) track paused for P chunks with a fade becomes audible P chunks later (+- the fade and one chunk). (c) random pause/resume/resume_at(delayed | clock | clock later dropped) histories with fades: state() never panics and is one of the five states. A tree case is distinct when its (tree shape, persistence flags, kinds of operation in its history, sounds on the main track) is new; the other families count one class each. Also pause on a track that is waiting to resume (the scheduled resume is cancelled) and pauses whose fade has a delayed start (the track plays on until then). 40 % of the delay / fade cases run on a device whose internal buffer is three callbacks long (short chunks): track fades and start delays are counted in rendered frames. Resume variants on plain and spatial tracks: resume() with a fade-in whose start is delayed (Resuming at once, sounds advance), and resume_at on a clock that is not running (frozen and silent until it is started)."),
         domain="instant fades in (a); fades 0..3 chunks in (b),(c); excluded while listed as known finding: dropping the clock a resume_at waits on (state() then panics)",
         assumptions=["a Stopped sound is unloaded at the next callback and the persisting track is examined before that, so it is removed one callback later", "DC levels 2^-(b+2) sum exactly in f32"],
         quick=[rel(30)],
